@@ -177,8 +177,8 @@ def run(ck, replay=None):
     for prof, d in flavours:
         kind = "asan" if prof == "asan" else "native"
         exe = os.path.join(d, "c10")
-        # ASan thorough: one size smaller (same generator), it is ~3x slower
-        u, p = (ulen, plen) if (quick or prof != "asan") else (8, 5)
+        # thorough: the largest pair domain in the release build only (debug / ASan one size smaller)
+        u, p = (ulen, plen) if (quick or prof == "release") else (8, 5)
         for i in range(nsh):
             add(kind, "%s exh ulen=%d plen=%d shard=%d/%d" % (prof, u, p, i, nsh),
                 dict(argv=[exe, "exh", str(seed), "0", str(u), str(p), str(nsh), str(i)], timeout=3000))
@@ -235,9 +235,10 @@ def run(ck, replay=None):
 
     ck.exhaustive = bool(exh_native_ok)
     ck.extra["exhaustive_domain"] = (
-        "native debug+release: every byte string over {00,'/','a',FF} of length <= %d through every constructor and the "
+        "native release (debug%s): every byte string over {00,'/','a',FF} of length <= %d through every constructor and the "
         "path-operation chains, every ordered pair of such strings of length <= %d through path_join / path_join_fmt / "
-        "from_format; random long strings, directory listings and the Miri/ASan passes are samples" % (ulen, plen))
+        "from_format; random long strings, directory listings and the Miri/ASan passes are samples"
+        % (" too" if quick else " and ASan: lengths <= 8 / <= 5", ulen, plen))
     ck.assume("from_format / path_join_fmt cannot reject (they return a value): for text that carries a NUL other than "
               "one final NUL only the terminator is demanded (counted in note_*_interior_nul_accepted), as the statement "
               "limits 'no other NUL' to NUL-free inputs")
